@@ -321,7 +321,13 @@ def known_match(entry, case, real, model):
         # clause 7: d was reported closed, or had left the open list, before this call and is open again
         was_closed = any(isinstance(obs[j], list) and len(obs[j]) > 2 and i in obs[j][0] for j in range(k + 1))
         was_open = any(isinstance(obs[j], list) and len(obs[j]) > 2 and obs[j][2][0] == 0 and i in obs[j][2][1] for j in range(k))
-        return (i in vis or pool[i][1] == 0x13) and (was_closed or was_open)
+        if pool[i][1] == 0x13:
+            # a breakaway is held as a hidden copy: it is never listed by Open() and its leaving the open list is not
+            # observable, so "was open / was reported closed before" cannot be read off the observations.  evicted_at
+            # already established that this very descriptor was accepted by an earlier call and that the ring entry
+            # remembering it has been overwritten: its second acceptance is the recorded finding (vp run 5, thorough tier)
+            return True
+        return i in vis and (was_closed or was_open)
     except Exception:
         return False
 
